@@ -116,9 +116,29 @@ def run_one(mod, case, timeout):
         res = mod.run_case(case)
     except CaseTimeout:
         res = {"decided": False, "nontrivial": False, "violations": [], "skip": "watchdog"}
-    except Exception:
-        res = {"decided": False, "nontrivial": False, "violations": [], "skip": "harness_error",
-               "error": traceback.format_exc()[-1500:]}
+    except Exception as exc:
+        # Who raised?  Walk the traceback from the innermost frame outwards: the first frame that belongs to
+        # pyrex or to the harness decides.  An exception escaping from pyrex (or from numpy/scipy/h5py called
+        # by pyrex) on an input the workload considers in-domain is a violation of the property being driven
+        # ("no code path fails"); one raised by the harness itself makes the case inconclusive.
+        frames = traceback.extract_tb(exc.__traceback__)
+        owner, where = "harness", ""
+        for fr in reversed(frames):
+            fn = os.path.abspath(fr.filename)
+            if fn.startswith(os.path.join(os.path.abspath(REPO), "")) or "/pyrex/" in fn and "/verif/" not in fn:
+                owner, where = "pyrex", "%s:%s" % (os.path.basename(fn), fr.name)
+                break
+            if fn.startswith(os.path.join(HERE, "vt")):
+                break
+        if owner == "pyrex":
+            res = {"decided": True, "nontrivial": True, "skip": None,
+                   "violations": [{"clause": "unexpected exception from pyrex",
+                                   "detail": {"type": type(exc).__name__, "message": str(exc)[:200], "raised_in": where,
+                                              "called_from": next((f"{os.path.basename(f.filename)}:{f.lineno}" for f in reversed(frames)
+                                                                   if os.path.abspath(f.filename).startswith(os.path.join(HERE, "vt", "checks"))), "")}}]}
+        else:
+            res = {"decided": False, "nontrivial": False, "violations": [], "skip": "harness_error",
+                   "error": traceback.format_exc()[-1500:]}
     finally:
         signal.alarm(0)
     res.setdefault("violations", [])
